@@ -45,6 +45,17 @@ def topo_order(nodes, di):
     return out
 
 
+def _relevant(tab, keys, j):
+    """does argument j influence the table?"""
+    seen = {}
+    for k in keys:
+        r = k[:j] + k[j + 1:]
+        if r in seen and seen[r] != tab[k]:
+            return True
+        seen.setdefault(r, tab[k])
+    return False
+
+
 class Fscm:
     def __init__(self, nodes, di, bi, rng: random.Random, max_card=3):
         self.nodes = sorted(set(nodes) | {x for e in di for x in e} | {x for e in bi for x in e})
@@ -95,7 +106,13 @@ class Fscm:
         self.f = {}
         for v in self.nodes:
             dims = [range(self.card[p]) for p in self.pa[v]] + [range(self.exo_card[k]) for k in self.lat_of[v]]
-            self.f[v] = {key: rng.randrange(self.card[v]) for key in itt.product(*dims)}
+            keys = list(itt.product(*dims))
+            tab = None
+            for _ in range(6):   # prefer generic mechanisms: every argument matters (still a compatible model either way)
+                tab = {key: rng.randrange(self.card[v]) for key in keys}
+                if all(_relevant(tab, keys, j) for j in range(len(dims))):
+                    break
+            self.f[v] = tab
         self.space = list(itt.product(*[range(self.exo_card[k]) for k in self.exo]))
         self.weight = []
         for pt in self.space:
@@ -202,7 +219,7 @@ def leaves(e, acc=None):
     elif t == "prod":
         for x in e[1:]:
             leaves(x, acc)
-    elif t == "sum":
+    elif t in ("sum", "osum"):
         leaves(e[2], acc)
     elif t == "frac":
         leaves(e[1], acc)
@@ -243,6 +260,20 @@ def eval_expr(e, model: Fscm, nu, rd: Reading, env=None, counter=None):
         if d == 0:
             raise Undefined()
         return n / d
+    if t == "osum":
+        # marginalisation over OUTCOME occurrences only (what conditioning means): the bound value is used for children /
+        # parents named so, never for subscripts
+        names = [int(v[1]) for v in e[1]]
+        tot = F(0)
+        start = counter[0]
+        for vals in itt.product(*[range(model.card[n]) for n in names]):
+            env2 = dict(env)
+            oenv = dict(env.get("__outcome_only__", {}))
+            oenv.update(zip(names, vals))
+            env2["__outcome_only__"] = oenv
+            counter[0] = start
+            tot += eval_expr(e[2], model, nu, rd, env2, counter)
+        return tot
     if t == "sum":
         names = [int(v[1]) for v in e[1]]
         tot = F(0)
@@ -271,6 +302,8 @@ def eval_expr(e, model: Fscm, nu, rd: Reading, env=None, counter=None):
                 raise Undefined()   # x and x' in the same subscript: not a distribution the reading defines
             if v[2] != "n":
                 val = nu[name][_star(v[2])]
+            elif name in env.get("__outcome_only__", ()):
+                val = env["__outcome_only__"][name]
             elif name in env:
                 val = env[name]
             elif (leaf_no, name) in rd.choice:
@@ -308,7 +341,7 @@ def free_names(e, bound=frozenset()):
         elif t == "prod":
             for y in x[1:]:
                 walk(y, bound)
-        elif t == "sum":
+        elif t in ("sum", "osum"):
             walk(x[2], bound | {int(v[1]) for v in x[1]})
         elif t == "frac":
             walk(x[1], bound)
@@ -424,3 +457,18 @@ def check_same_probability(graph, event, event2, seed, n_models=8, max_card=3):
             return {"want": str(p1), "got": str(p2), "cards": {str(k): v for k, v in m.card.items()},
                     "nu": {str(k): list(v) for k, v in nu.items()}}
     return None
+
+
+def model_sexp(m: Fscm):
+    """the model in the line-protocol encoding of the `cf fscm_prob` driver op (Y0/Spec/Fscm.lean evaluates it)"""
+    exo_pos = {k: i for i, k in enumerate(m.exo)}
+    pmfs = [[[p.numerator, p.denominator] for p in m.pexo[k]] for k in m.exo]
+    mechs = []
+    for v in m.nodes:
+        rows = [[list(key), val] for key, val in m.f[v].items()]
+        mechs.append([v, list(m.pa[v]), [exo_pos[k] for k in m.lat_of[v]], rows])
+    return ["model", list(m.order), pmfs, mechs]
+
+
+def nu_sexp(nu):
+    return [[v, x, xp] for v, (x, xp) in sorted(nu.items())]
